@@ -98,6 +98,34 @@ fn bytes_equal(out: &mut Out, fmt: usize, q: usize, d: usize, w: u32, h: u32, co
         out.count("bytes_parallel_runs");
     }
     ORDER_MODE.store(0, Ordering::SeqCst);
+    // writers that accept only part of what they are offered (short writes, short vectored writes)
+    for (cap, vectored) in [(1usize, false), (7, false), (1000, true), (4097, true)] {
+        let mut wtr = ShortWriter { data: Vec::new(), cap, vectored, flip: false };
+        let pool = rayon::ThreadPoolBuilder::new().num_threads(3).build().unwrap();
+        let r = pool.install(|| encode(&mut wtr, view, format, None, &o));
+        if r.is_err() || wtr.data != seq {
+            println!("IMPL-VIOLATION parallel bytes through a writer with short writes (cap {cap}, vectored {vectored}) differ from sequential ({} vs {} bytes): {name} q {q} d {d} {w}x{h} colour {color}", wtr.data.len(), seq.len());
+        }
+        out.count("bytes_parallel_short_writer");
+    }
+}
+/// a writer that accepts at most `cap` bytes per call (every other call only one byte); `write_vectored` either falls back
+/// to the default (first non-empty buffer) or fills its budget across the buffers
+struct ShortWriter { data: Vec<u8>, cap: usize, vectored: bool, flip: bool }
+impl std::io::Write for ShortWriter {
+    fn write(&mut self, buf: &[u8]) -> std::io::Result<usize> {
+        self.flip = !self.flip;
+        let n = buf.len().min(if self.flip { self.cap } else { 1 });
+        self.data.extend_from_slice(&buf[..n]);
+        Ok(n)
+    }
+    fn write_vectored(&mut self, bufs: &[std::io::IoSlice<'_>]) -> std::io::Result<usize> {
+        if !self.vectored { let b = bufs.iter().find(|b| !b.is_empty()).map_or(&[][..], |b| &**b); return self.write(b); }
+        let mut left = self.cap; let mut n = 0;
+        for b in bufs { let k = b.len().min(left); self.data.extend_from_slice(&b[..k]); n += k; left -= k; if left == 0 { break; } }
+        Ok(n)
+    }
+    fn flush(&mut self) -> std::io::Result<()> { Ok(()) }
 }
 
 pub fn run(out: &mut Out, tier: &str, seed: u64, corpus: Option<&str>) {
